@@ -62,6 +62,26 @@ CHECKS = {
         "thorough": {"gen": [G("MC_C15", "MC_C17_thorough.cfg")], "profiles": ["debug", "release"]},
         "require_ops": ["strict.is_acyclic", "strict.is_monogamous", "hyper.in_degree", "hyper.out_degree"],
     },
+    "C16": {
+        "quick": {"gen": [G("MC_C16", "MC_C16_quick.cfg")]},
+        "thorough": {"gen": [G("MC_C16", "MC_C16_thorough.cfg")]},
+        "require_ops": ["strict.eval"],
+    },
+    "C18": {
+        "quick": {"gen": [G("MC_C18", "MC_C18_quick.cfg")]},
+        "thorough": {"gen": [G("MC_C18", "MC_C18_thorough.cfg")]},
+        "require_ops": ["arrow.new", "arrow.is_monomorphism", "arrow.is_convex_subgraph"],
+    },
+    "C12": {
+        "quick": {"gen": [G("MC_C12", "MC_C12_quick.cfg")]},
+        "thorough": {"gen": [G("MC_C12", "MC_C12_quick.cfg")]},
+        "require_ops": ["functor.map_arrow", "laxf.dyn_map_arrow", "functor.laws"],
+    },
+    "C13": {
+        "quick": {"gen": [G("MC_C12", "MC_C13_quick.cfg")]},
+        "thorough": {"gen": [G("MC_C12", "MC_C13_quick.cfg")]},
+        "require_ops": ["laxf.try_define_map_arrow", "laxf.map_arrow_witness"],
+    },
     "C01": {
         "quick": {"gen": [G("MC_C01", "MC_C01_quick.cfg")]},
         "thorough": {"gen": [G("MC_C01", "MC_C01_quick.cfg")]},
